@@ -177,12 +177,13 @@ def descendants (s : Sys π ν) (n : Nat) : List Nat :=
 def railOwner (s : Sys π ν) (r : String) : Option String :=
   (s.rails.find? (fun p => decide (p.2 = r))).map (·.1)
 
-/-- `_get_index(name)`: component name first, then rail name → its (first) owner; `ok none` is `-1`.
+/-- `_get_index(name)`: component name first, then (non-empty) rail name → its (first) owner; `ok none` is `-1`.
     `error "KeyError"`: the rail's owner is missing from `attrs["nodes"]`. -/
 def getIndex (s : Sys π ν) (x : String) : Except String (Option Nat) :=
   match dget s.nodes x with
   | some i => .ok (some i)
   | none =>
+    if x = "" then .ok none else
     match s.railOwner x with
     | none => .ok none
     | some c =>
@@ -192,7 +193,7 @@ def getIndex (s : Sys π ν) (x : String) : Except String (Option Nat) :=
 
 /-- `_chk_parent` passes -/
 def chkParent (s : Sys π ν) (p : String) : Bool :=
-  decide (p ∈ dkeys s.nodes) || decide (p ∈ dvals s.rails)
+  decide (p ∈ dkeys s.nodes) || (decide (p ≠ "") && decide (p ∈ dvals s.rails))
 
 /-- `_chk_comp` passes -/
 def chkComp (s : Sys π ν) (x : String) : Bool := decide (x ∈ dkeys s.nodes)
